@@ -10,9 +10,16 @@ EXPLANATION = (
     "all); likewise every baseline bump. R2: the tested entity is the entity whose data is written (state()/is_visible() argument "
     "and the serialised entity/component come from the same iteration item) and start_entity_changes runs for every client before "
     "the component loop. R3: ClientVisibility's state is private and committed once per client per tick. R4 (decision tables): "
-    "is_visible is false exactly for Hidden; state() classifies list membership as the policy demands.")
-NOT_DECIDED = ("that set_visibility/update/remove_despawned/drain_lost keep the list x added x removed state machine consistent for every call sequence "
-               "(abstract execution of hash-map state: another technique); the hide-and-despawn leak (D11) lives there and is not detected")
+    "is_visible is false exactly for Hidden; state() classifies list membership as the policy demands (both evaluated in every abstract state). "
+    "R5 (typestate / finite abstract interpretation of ClientVisibility's MIR, absint.py): per entity the state is (list entry, in `added`, in `removed`) - "
+    "a finite domain; the transfer relation of set_visibility / update / remove_despawned / drain_lost / state / is_visible is computed from their MIR "
+    "and the reachable states under every sequence of set_visibility(true|false) / tick / despawn are enumerated for both policies with two ghost bits "
+    "(most recent setting, client holds the entity). Invariants: queries truthful, every loss reported (despawn record), no spurious loss, a gain "
+    "delivers the whole entity, state() truthful at the tick, a despawn is reported to a holder, a despawn leaves no state behind. The call protocol the "
+    "exploration assumes (is_visible -> remove_despawned for every despawned entity, drain_lost afterwards, collect_despawns before collect_changes before "
+    "send_messages/update) is checked on the callers. R6: first-sight completeness (rules/first_sight.py).")
+NOT_DECIDED = ("interaction of two different entities inside one ClientVisibility (the abstraction is per entity; the methods touch only the keyed entry, which the "
+               "interpreter verifies by refusing map operations on another key); bytes actually put on the wire")
 TRUSTED_BASE = ["bevy query iteration yields each client once per loop", "hash-map get/insert/remove contracts"]
 
 UPD = "bevy_replicon::server::replication_messages::updates::Updates"
